@@ -88,4 +88,9 @@ func init() {
 		NotDecided:  "absence of data races in general (no pointer analysis): sound for this code base under the listed inventories; element-count equality between producers and counted consumers.",
 		Technique:   T + "forward must-analysis of lock state; must-pass-through (close) on the goroutine CFG; loop-escape analysis; reach-condition implication; inventories with floors and canaries",
 	}
+	propInfo["C18"] = PropInfo{
+		Explanation: "BitList: growth copies the old words into a strictly longer fresh slice before replacing them; AddBit re-reads the count per bit, grows until the word index fits, writes at index count and increments once after the write; MSB-first bit order in SetBit/GetBit/AddByte/AddBits; byte views (GetBytes length and element formula, IterateBytes loop condition, byte formula and word/shift advance); NewBitList word count.",
+		NotDecided:  "bit positions under arbitrary operation sequences (the rules pin each operation's formula, not their composition).",
+		Technique:   T + "dominance/ordering rules, lower-bound domain (growth amount), polynomial normal forms and reach conditions of the loop tests",
+	}
 }
